@@ -25,14 +25,18 @@ theorem day_le_daysIn (z : Int) : Date.day z ≤ daysIn (Date.year z) (Date.mont
   unfold Date.day Date.month at *
   omega
 
-theorem year_bounds (z : Int) (h0 : 0 ≤ z) (h1 : z ≤ maxDate) : 1 ≤ Date.year z ∧ Date.year z ≤ 9999 := by
+/-- the first day of the year 0000 (`time.Parse` accepts the years 0000..9999) -/
+def minDate : Int := -366
+
+theorem year_bounds (z : Int) (h0 : minDate ≤ z) (h1 : z ≤ maxDate) : 0 ≤ Date.year z ∧ Date.year z ≤ 9999 := by
   have ⟨a, b⟩ := Date.year_spec z
   constructor
-  · by_cases h : 1 ≤ Date.year z
+  · by_cases h : 0 ≤ Date.year z
     · exact h
     · exfalso
-      have : Date.yearStart (Date.year z + 1) ≤ Date.yearStart 1 := Date.yearStart_mono (by omega)
-      have e : Date.yearStart 1 = 0 := by decide
+      have : Date.yearStart (Date.year z + 1) ≤ Date.yearStart 0 := Date.yearStart_mono (by omega)
+      have e : Date.yearStart 0 = -366 := by decide
+      simp only [minDate] at h0
       omega
   · by_cases h : Date.year z ≤ 9999
     · exact h
@@ -82,8 +86,8 @@ theorem byte_of_digit {c : Char} (h : Dec.isDigit c = true) :
   have e : (UInt8.ofNat c.toNat).toNat = c.toNat := by simp [UInt8.toNat_ofNat']; omega
   simp [asciiDigit, e, a, b]
 
-/-- **dates re-read**: a printed date of the years 0001..9999 parses back to the same day -/
-theorem parseDate_fmtDate (z : Int) (h0 : 0 ≤ z) (h1 : z ≤ maxDate) :
+/-- **dates re-read**: a printed date of the years 0000..9999 parses back to the same day -/
+theorem parseDate_fmtDate (z : Int) (h0 : minDate ≤ z) (h1 : z ≤ maxDate) :
     parseDate (flat (charsToks (dateChars z))) = some z := by
   have ⟨y1, y2⟩ := year_bounds z h0 h1
   have ⟨m1, m2⟩ := Date.month_bounds z
